@@ -73,14 +73,29 @@ class SemErr(Exception):
     pass
 
 
+U0 = 2.5e-16          # a few units in the last place: what one float operation (with its unit conversions) may add
+EMAX = 1e-11          # accumulated relative error bound beyond which 1e-9 agreement is not the floats' to give
+
+
+class Ev(tuple):
+    """exact SI value with a bound on the relative error the float evaluation may have accumulated on it"""
+    def __new__(cls, x, e=0.0):
+        if e > EMAX:
+            raise Degenerate()
+        return tuple.__new__(cls, (x, e))
+    x = property(lambda s: s[0])
+    e = property(lambda s: s[1])
+
+
 def _fmod(a, b):
-    if b == 0:
+    if b.x == 0:
         raise Degenerate()
-    q = a / b
+    q = a.x / b.x
     fl = math.floor(q)
     if abs(q) > 10**6 or min(q - fl, fl + 1 - q) < Fr(1, 10**6) * max(1, abs(q)):
         raise Degenerate()
-    return a - b * fl
+    r = a.x - b.x * fl
+    return Ev(r, float((abs(a.x) * Fr(a.e + 4 * U0) + abs(b.x * fl) * Fr(b.e + 4 * U0)) / abs(r)) + 4 * U0)
 
 
 def _zip(f, a, b):
@@ -96,61 +111,74 @@ def _zip(f, a, b):
     return f(a, b)
 
 
+def _map(f, a):
+    return [f(x) for x in a] if isinstance(a, list) else f(a)
+
+
 def _chk_add(x, y):
-    r = x + y
-    if r == 0 or abs(r) < Fr(1, 10) * max(abs(x), abs(y)):
+    r = x.x + y.x
+    if r == 0 or abs(r) < Fr(1, 10) * max(abs(x.x), abs(y.x)):
         raise Degenerate()
-    return r
+    return Ev(r, float((abs(x.x) * Fr(x.e) + abs(y.x) * Fr(y.e)) / abs(r)) + 4 * U0)
 
 
 def _div(x, y):
-    if y == 0:
+    if y.x == 0:
         raise Degenerate()
-    return x / y
+    return Ev(x.x / y.x, x.e + y.e + 4 * U0)
 
 
-def sem(t):
-    """(SI value(s), dim or None, stored system or None); raises SemErr / Degenerate."""
+def _scaled(v, f):
+    return _map(lambda y: Ev(y.x * f, y.e + 2 * U0), v)
+
+
+def sem_e(t):
+    """(SI value(s) with error bounds, dim or None, stored system or None); raises SemErr / Degenerate."""
     k = t[0]
     if k == "num":
-        return Fr(t[1]), None, None
+        return Ev(Fr(t[1])), None, None
     if k == "val":
-        return Fr(t[1]) * si.si_scale(t[2], t[3]), tuple(t[3]), tuple(t[2])
+        return Ev(Fr(t[1]) * si.si_scale(t[2], t[3])), tuple(t[3]), tuple(t[2])
     if k == "arr":
         sc = si.si_scale(t[2], t[3])
-        return [Fr(x) * sc for x in t[1]], tuple(t[3]), tuple(t[2])
+        return [Ev(Fr(x) * sc) for x in t[1]], tuple(t[3]), tuple(t[2])
     if k == "neg":
-        v, d, s = sem(t[1])
-        return _zip(lambda x, _: -x, v, 0), d, s
+        v, d, s = sem_e(t[1])
+        return _map(lambda x: Ev(-x.x, x.e), v), d, s
     if k == "abs":
-        v, d, s = sem(t[1])
-        return _zip(lambda x, _: abs(x), v, 0), d, s
+        v, d, s = sem_e(t[1])
+        return _map(lambda x: Ev(abs(x.x), x.e), v), d, s
     if k == "pow":
-        v, d, s = sem(t[1])
+        v, d, s = sem_e(t[1])
         if isinstance(v, list):
             raise SemErr()
-        if v == 0:
+        if v.x == 0:
             raise Degenerate()
-        return v ** t[2], (None if d is None else tuple(t[2] * e for e in d)), s
+        return Ev(v.x ** t[2], (abs(t[2]) + 1) * (v.e + 4 * U0)), (None if d is None else tuple(t[2] * e for e in d)), s
     op = t[1]
-    (va, da, sa), (vb, db, sb) = sem(t[2]), sem(t[3])
+    (va, da, sa), (vb, db, sb) = sem_e(t[2]), sem_e(t[3])
     if op in ("Add", "Sub", "Mod"):
         if da is not None and db is not None:
             if da != db:
                 raise SemErr()
         elif da is not None:          # the plain number is read in the stored units of the quantity
-            vb = _zip(lambda y, _: y * si.si_scale(sa, da), vb, 0)
+            vb = _scaled(vb, si.si_scale(sa, da))
         elif db is not None:
-            va = _zip(lambda x, _: x * si.si_scale(sb, db), va, 0)
-        f = {"Add": _chk_add, "Sub": lambda x, y: _chk_add(x, -y), "Mod": _fmod}[op]
+            va = _scaled(va, si.si_scale(sb, db))
+        f = {"Add": _chk_add, "Sub": lambda x, y: _chk_add(x, Ev(-y.x, y.e)), "Mod": _fmod}[op]
         return _zip(f, va, vb), (da if da is not None else db), (sa if sa is not None else sb)
     if op == "Mul":
         d = None if da is None and db is None else tuple(x + y for x, y in zip(da or (0, 0, 0), db or (0, 0, 0)))
-        return _zip(lambda x, y: x * y, va, vb), d, (sa if sa is not None else sb)
+        return _zip(lambda x, y: Ev(x.x * y.x, x.e + y.e + 4 * U0), va, vb), d, (sa if sa is not None else sb)
     if op == "Div":
         d = None if da is None and db is None else tuple(x - y for x, y in zip(da or (0, 0, 0), db or (0, 0, 0)))
         return _zip(_div, va, vb), d, (sa if sa is not None else sb)
     raise ValueError(op)
+
+
+def sem(t):
+    v, d, s = sem_e(t)
+    return _map(lambda x: x.x, v), d, s
 
 
 def sem_cmp(op, a, b):
@@ -401,7 +429,8 @@ def check(run):
                 "plus neg/abs/** on each kind, fractional exponents, six comparisons x three pairings): %d paths, each with operands "
                 "drawn from all 1100 systems, dims in [-2,2]^3, magnitudes 1e-3..1e4, matching and mismatched dimensions and array "
                 "lengths; then random expression trees of depth <= 4. Cases on a discontinuity (modulo/comparison within 1e-6, "
-                "cancellation below 1/10, zero divisor) are discarded and counted. non-trivial = the model evaluated the case "
+                "cancellation below 1/10, zero divisor, or a forward bound on the accumulated float error above 1e-11 - nested modulo "
+                "amplifies it) are discarded and counted. non-trivial = the model evaluated the case "
                 "(Coq branch > 0); distinct = distinct canonical case" % len(paths))
     run.assumptions = ["binary64 results compared with exact rational arithmetic at relative 1e-9 (1e-8 for roots)",
                        "division / modulo by zero and non-finite results are outside the property's quantifier and not generated"]
